@@ -18,8 +18,8 @@ INPKG = ["actor/zz_verif_c37.go"]
 TIMEOUT = 900
 MANIFEST = {
     "level_text": "Kernel-checked theorems over a model of supervisor.NewSupervisor/options/Reset/SetDirectiveByType, reentrancy.New, the wire structs of actor.proto field by field, codec Encode/Decode (supervisor, passivation, reentrancy, durationpb), PID.toSerialize, wireSpawnOptions and configPID's defaulting. relocate_exact: for EVERY spawn configuration with well-formed tables and int64 durations, the configuration after encode->wire->decode->respawn equals the original with exactly three alterations: the supervisor's backoff triple is zeroed, the directive table is re-normalised (AnyError collapses it; the two constructor defaults are re-added), the reentrancy limit is clamped to 2^32-1. C37_refuted: the property as stated is false (WithExponentialBackoff is lost: SupervisorSpec has no field for it), C37_backoff_always_lost: for every configuration. C37_partial: equality on all observable accessors for every configuration whose supervisor has no backoff and constructor-shaped directives and whose reentrancy limit fits uint32; C37_constructor_covered: every supervisor built by NewSupervisor from any options without WithExponentialBackoff satisfies that guard. Tie: differential of the real codec functions and of the real relocation path (Spawn -> toSerialize -> proto Marshal/Unmarshal -> wireSpawnOptions -> Spawn inside a local actor system) against the model: in-memory dump before, wire dump, in-memory dump after; plus the field list of the wire messages.",
-    "level_note": "Partial: property refuted for backoff (finding C37-F1, needs a proto change) and for two corner families (C37-F2). Trusted/parameters: protobuf Marshal/Unmarshal and the user's dependency MarshalBinary/UnmarshalBinary (sampled by the differential); Duration.AsDuration modelled as saturating arithmetic (exact on everything Encode produces); invalid enum integers (Strategy(7), Directive(9)) are outside the model; the remote-spawn CLIENT (internal/remoteclient RemoteSpawn) assembles its request inline with the same codec calls and is not driven (it needs a socket) — the codec functions it calls and the server-side option building shared with relocation are.",
-    "technique": "Lean 4 proof (structural induction on option lists and association lists) over a hand-written model + model/implementation differential through the real relocation path",
+    "level_note": "Partial: property refuted for backoff (finding C37-F1, needs a proto change) and for two corner families (C37-F2). Trusted/parameters: protobuf Marshal/Unmarshal and the user's dependency MarshalBinary/UnmarshalBinary (sampled by the differential); Duration.AsDuration modelled as saturating arithmetic (exact on everything Encode produces); invalid enum integers (Strategy(7), Directive(9)) are outside the model; the remote-spawn route is driven end to end over loop-back TCP (Spawn WithHostAndPort -> remoteclient.RemoteSpawn -> remoteSpawnHandler); singleton and reliable-delivery branches are not.",
+    "technique": "Lean 4 proof (structural induction on option lists and association lists) over a hand-written model + model/implementation differential through the real relocation and remote-spawn paths",
 }
 TRUSTED = [
     "protobuf Marshal/Unmarshal round-trips the wire messages (parameter; the harness passes every record through it)",
@@ -81,9 +81,8 @@ def g_cfg(rng):
         # long timeouts only: the spawned actors stay alive while the harness runs
         pas = "t:" + str(rng.choice([3600 * 10**9, 3600 * 10**9 + 1, 86400 * 10**9 + 999999999, 10**15, 10**13 + rng.randrange(10**9)]))
     elif r < 0.8:
-        # counts near MaxInt64 make the REAL passivation manager passivate at once (baseline + max overflows in
-        # passivationManager.MessageProcessed) which would make the dump racy; extreme counts go through `pas` instead
-        pas = "m:" + str(rng.choice([1000, 10**6, 2**31 - 1, 2**31, 2**40]))
+        # (counts near MaxInt64 used to passivate at once: overflow in passivationManager.MessageProcessed, fixed by 5123092)
+        pas = "m:" + str(rng.choice([1000, 10**6, 2**31 - 1, 2**31, 2**40, I64]))
     else:
         pas = "l"
     re = "-" if rng.random() < 0.4 else f"{rng.randint(0, 2)}:{rng.choice([0, 1, 7, 100, -3, 2**31, 2**32 - 1, 2**32, 2**32 + 5, 2**40, I64])}"
